@@ -18,6 +18,8 @@ func main() {
 		scanMain(os.Args[2:])
 	case "gen":
 		genMain(os.Args[2:])
+	case "cold":
+		coldMain(os.Args[2:])
 	default:
 		fmt.Fprintln(os.Stderr, "unknown mode")
 		os.Exit(2)
